@@ -190,6 +190,11 @@ func (c *FnCtx) defineVar(st *State, obj *types.Var, v *Term) {
 	if c.boxed[obj] {
 		r := c.allocRef(st, "box_"+obj.Name())
 		st.vars[obj] = r
+		if isExtStruct(obj.Type()) && isLit(v, "0") {
+			// a zero-valued variable of an external struct type (var b strings.Builder): the opaque identity of the value
+			// is the variable's own address, so that b.M() and (&b).M() denote the same object and it is not nil
+			v = r.withGo(obj.Type())
+		}
 		c.storeCell(st, r, obj.Type(), v)
 		c.zeroGhostFields(st, r, obj.Type())
 		return
@@ -1359,6 +1364,36 @@ func (c *FnCtx) verify() (err error) {
 		}
 	}
 	outs := c.execBlock(st, fd.Body.List)
+	// vacuity guard: some way of leaving the function must be consistent with everything assumed on the way (library
+	// contracts, callee postconditions, invariants, the memory model). If every path to a return is contradictory the
+	// obligations of the function were discharged vacuously.
+	{
+		var pcs [][]*Term
+		for _, o := range outs {
+			if o.flow == FNormal || o.flow == FReturn {
+				pc := o.st.pc
+				if g := o.st.guard(); !isLit(g, "true") {
+					pc = append(append([]*Term(nil), pc...), g)
+				}
+				pcs = append(pcs, pc)
+			}
+		}
+		if len(pcs) > 0 && len(pcs) <= 64 {
+			n := len(pcs[0])
+			for _, pc := range pcs[1:] {
+				k := 0
+				for k < n && k < len(pc) && pc[k] == pcs[0][k] {
+					k++
+				}
+				n = k
+			}
+			var disj []*Term
+			for _, pc := range pcs {
+				disj = append(disj, mkAnd(pc[n:]...))
+			}
+			c.obls = append(c.obls, &Obligation{Func: c.fi.Key, Kind: "cover:return", Site: fd.Pos(), Detail: "some path to a return is consistent with all assumptions made on it", Assume: append([]*Term(nil), pcs[0][:n]...), Goal: mkOr(disj...), Cover: true})
+		}
+	}
 	for _, o := range outs {
 		switch o.flow {
 		case FNormal:
